@@ -342,6 +342,7 @@ func corpusRoots(b *fw.B, e schemas.Entry, preset string, spec *common.Spec, sc 
 func corpusText(b *fw.B, e schemas.Entry, preset string, spec *common.Spec, enc []byte, o sszObj) bool {
 	var jerr error
 	var jout []byte
+	textAltered := false
 	if !b.NoPanic("json/panic/"+e.Name, func() {
 		data, err := json.Marshal(o.obj)
 		if err != nil {
@@ -349,16 +350,27 @@ func corpusText(b *fw.B, e schemas.Entry, preset string, spec *common.Spec, enc 
 			return
 		}
 		o2 := sszObj{spec, e.New()}
+		before := string(data)
 		if err := json.Unmarshal(data, o2.obj); err != nil {
 			jerr = fmt.Errorf("unmarshal: %v (json %s)", err, trunc(string(data), 200))
 			return
+		}
+		// encoding/json hands text unmarshallers pieces of the caller's buffer: the text must still be what it was, and the
+		// decoded value must not depend on what happens to the buffer afterwards
+		textAltered = string(data) != before
+		for i := range data {
+			data[i] = 'f'
 		}
 		jout, jerr = o2.serialize()
 	}) {
 		return false
 	}
+	if textAltered {
+		b.Violate("json/text-altered-by-decoding/"+e.Name, fmt.Sprintf("%s (%s preset): decoding the JSON text changed the caller's text buffer, the same text does not decode again", e.Name, preset), map[string]any{"ssz_hex": fmt.Sprintf("%x", enc[:min(len(enc), 2000)])})
+		return false
+	}
 	if jerr != nil || !bytes.Equal(jout, enc) {
-		b.Violate("json/roundtrip/"+e.Name, fmt.Sprintf("%s (%s preset): JSON form does not round-trip to the same value: %v", e.Name, preset, jerr), map[string]any{"ssz_hex": fmt.Sprintf("%x", enc[:min(len(enc), 2000)])})
+		b.Violate("json/roundtrip/"+e.Name, fmt.Sprintf("%s (%s preset): JSON form does not round-trip to the same value (judged after the text buffer was overwritten): %v", e.Name, preset, jerr), map[string]any{"ssz_hex": fmt.Sprintf("%x", enc[:min(len(enc), 2000)])})
 		return false
 	}
 	b.Inc("json_roundtrips")
